@@ -178,6 +178,10 @@ def gen_pattern(rng, rep=None):
         s += '/'
     if rng.random() < 0.04:
         s = '/' + s          # absolute pattern (root becomes Root.absolute)
+    if re.match(r'^[/\\]{2}', s):
+        # two leading separators make a UNC prefix (the share swallows the glob components, the constructor rejects the
+        # rest as a drive-relative path): the path algebra of such strings is C12's subject, not a pattern
+        s = '/' + s.lstrip('/\\')
     t = rng.choice([None, None, None, 'f', 'd', '*'])
     root = rng.choice(['srcdir', 'srcdir', 'srcdir', 'builddir'])
     return s, t, root
